@@ -43,6 +43,11 @@ def run(chk, tier):
         chk.floor("collect-impls[%s]" % c, n, FLOORS[c])
         chk.extra.setdefault("impls_analysed", {})[c] = n
         trace_plumbing(chk, prog, c)
+        # "impls that claim no tracing is needed exist only for types that cannot contain arena pointers": a borrow
+        # lifetime left free in the Self type of an impl (Cow<'a, B>, Ref<'a, T>, ..) can be instantiated at the brand,
+        # and the `&'gc T` it then holds points into an allocation no trace call reports (seed C16-f; the rule is C12's)
+        from gcv.props import C12 as c12
+        c12.collect_impl_lifetimes(chk, prog, c)
 
 
 def check_impl(chk, prog, im, c):
